@@ -16,9 +16,12 @@ Composition (every box is an existing model; nothing is re-modelled here except 
   merge staging: `Merge.merge` (Compare/Merge, C04)
   lint: `Lint.lintFile` (Lint/Linter, C19)
 
-Covered formats: ini, inc, po (base `Checker`) and properties (`PropertiesChecker`).  DTD is not covered
-(expat is external), Fluent and Android have no regex parser.  Decoding is outside: texts are code points, as
-`Parser.readFile` leaves them in `ctx.contents` (errors="replace", universal newlines).
+Covered formats: ini, inc, po (base `Checker`), properties (`PropertiesChecker`) and dtd (`DTDChecker`, model of C07
+in Checks/Dtd.lean) from the TEXT on; Fluent (`FluentChecker`, C08) and Android (`AndroidChecker`, C09) from the output of
+the external parser on (entry list with spans + AST summary / minidom node summary): `compareFtl`, `compareAndroid`.
+External library functions are PARAMETERS of the model (`Ext`): expat's verdict on a synthetic document (as in C07) and
+`html.unescape` (DTDEntity.val).  Decoding (bytes -> text) is `Pipe.decode` in Compare/Decode.lean; here texts are code
+points, as `Parser.readFile` leaves them in `ctx.contents`.
 
 Every Python operation that can raise is an `Except` here; nothing is defaulted.  `.error` = the call raises (the
 partially filled observers are then of no interest).  Attribute values that Python computes lazily (`Entity.val`)
@@ -33,6 +36,10 @@ import CLModel.Compare.Merge
 import CLModel.Compare.Observer
 import CLModel.Checks.Base
 import CLModel.Checks.Properties
+import CLModel.Checks.Dtd
+import CLModel.Checks.Fluent
+import CLModel.Checks.Android
+import CLModel.Parser.Fluent
 import CLModel.Lint.Linter
 namespace Pipe
 
@@ -47,6 +54,7 @@ inductive PyErr
   | attributeError
   | assertionError
   | valueError
+  | unicodeEncodeError
   | observer (e : TreeM.PyErr)
   | lint (name : String)
   | unmodelled
@@ -60,6 +68,7 @@ def PyErr.name : PyErr → String
   | .attributeError => "AttributeError"
   | .assertionError => "AssertionError"
   | .valueError => "ValueError"
+  | .unicodeEncodeError => "UnicodeEncodeError"
   | .observer e => e.name
   | .lint n => n
   | .unmodelled => "Unmodelled"
@@ -134,7 +143,28 @@ def keyData : Cmp.Key → ObsM.Data
   | .str t => .str t
   | .tup id ctx => .tuple [some id, ctx]
 
+/-! ### external library functions: parameters of the model -/
+
+/-- what the pipeline calls outside compare-locales and CPython's `re`: both are INPUTS of the model; the theorems hold
+    for every value of them -/
+structure Ext where
+  /-- expat through `xml.sax`: the verdict on one synthetic document of DTDChecker (error line, column, message; the
+      character data delivered to the text handler) -/
+  xml : Dtd.Bytes → Dtd.ParseRes
+  /-- `html.unescape` (standard library), what `DTDEntity.val` applies to `raw_val` -/
+  unescape : Text → Text
+
+instance : Inhabited Ext := ⟨⟨fun _ => ⟨none, []⟩, fun t => t⟩⟩
+
 /-! ### parse: `p.readFile(f); p.parse()` -/
+
+/-- which `position` / `value_position` / `equals` / `span` the Entity objects of a file have:
+    `plain` base `Entity` (properties, ini, inc, po), `dtd` `DTDEntity` (value_position accepts (line, col) tuples),
+    `fluent` `FluentEntity` (value offsets count from the start of the entry, `equals` compares the ASTs),
+    `node` `AndroidEntity` / `XMLJunk` (no spans: positions are `(0, offset)`).
+    A `Junk` of the first three is the base `Junk` (no `value_position`, no `equals`). -/
+inductive Cls | plain | dtd | fluent | node
+  deriving Repr, DecidableEq, Inhabited
 
 /-- a localizable entry (Entity or Junk) with the attribute values the pipeline reads -/
 structure PEnt where
@@ -150,7 +180,16 @@ structure PEnt where
   all : Text
   /-- `.pre_comment.all` -/
   comment : Option Text
-  deriving Repr, DecidableEq, Inhabited
+  /-- `.count_words()` (Fluent: the `WordCounter` visitor over the external AST, an input) -/
+  words : Nat := 0
+  /-- Fluent: `.entry` (the external AST) and its class under `BaseNode.equals(…, ignored_fields)` -/
+  ftl : Option (Ftl.Entry × Nat) := none
+  /-- Android: `.node` (summary of the minidom element) -/
+  node : Option Android.Node := none
+
+/-- `x in skips` / `x == y` on entry objects is identity: no entry class defines `__eq__`.  The objects compared are
+    the LAST entry of a key and collected Junk: they differ in class, key or span whenever they are different objects. -/
+instance : BEq PEnt := ⟨fun a b => a.junk == b.junk && a.key == b.key && a.entry == b.entry⟩
 
 def natText (n : Nat) : Text := Lint.showInt (n : Int)
 
@@ -158,33 +197,43 @@ def natText (n : Nat) : Text := Lint.showInt (n : Int)
 def junkKeyText (id s e : Nat) : Text :=
   Lint.interleave Gen.Tables.junkKeyParts [natText id, natText s, natText e]
 
+/-- a `Junk(ctx, span)` of the text `s` with counter value `id` -/
+def mkJunk (s : Array Nat) (e : P.Entry) (id : Nat) : PEnt :=
+  let all := P.slice s e.s e.e
+  { entry := e, junk := true, key := .str (junkKeyText id e.s e.e), val := all, raw := all, all := all, comment := none }
+
+/-- `.val` of an Entity: `DTDEntityMixin.val` is `html_unescape(self.raw_val)` (external); `none` = the callback of
+    `PropertiesEntity.val` raising -/
+def entVal (ext : Ext) (f : P.Fmt) (v : P.EntView) : Option Text :=
+  match f with
+  | .dtd => some (ext.unescape v.raw)
+  | _ => v.val
+
 /-- materialise one localizable entry of the text `s` -/
-def mkEnt (f : P.Fmt) (s : Array Nat) (h : Hist.Ent) : Except PyErr PEnt :=
+def mkEnt (ext : Ext) (f : P.Fmt) (s : Array Nat) (h : Hist.Ent) : Except PyErr PEnt :=
   let e := h.entry
   match h.jid with
-  | some id =>
-    let all := P.slice s e.s e.e
-    .ok { entry := e, junk := true, key := .str (junkKeyText id e.s e.e), val := all, raw := all, all := all, comment := none }
+  | some id => .ok (mkJunk s e id)
   | none =>
     match P.entView f s e with
     | none => .error .keyError           -- PO: `escapes[m.group(1)]` inside `eval_stringlist`, raised while parsing
     | some v =>
-      match v.val with
-      | none => .error .valueError       -- the callback of `PropertiesEntity.val` raising
+      match entVal ext f v with
+      | none => .error .valueError
       | some val =>
         let key := match v.ctxt with
           | some c => Cmp.Key.tup v.key c
           | none => Cmp.Key.str v.key
         .ok { entry := e, junk := false, key := key, val := val, raw := v.raw, all := P.Entry.all s e,
-              comment := e.pc.map (fun ab => P.slice s ab.1 ab.2) }
+              comment := e.pc.map (fun ab => P.slice s ab.1 ab.2), words := Cmp.countWords val }
 
 /-- `p.readUnicode(text); p.parse()` with `Junk.junkid = junkid` before: the localizable entries and the counter after -/
-def parseFile (f : P.Fmt) (s : Array Nat) (junkid : Nat) : Except PyErr (List PEnt × Nat) :=
+def parseFile (ext : Ext) (f : P.Fmt) (s : Array Nat) (junkid : Nat) : Except PyErr (List PEnt × Nat) :=
   match P.walk f s with
   | .stuck _ _ => .error .hang
   | .done es =>
     let r := Hist.assign f s 0 junkid 0 es
-    match mapE (mkEnt f s) (r.2.filter (fun h => h.entry.localizable)) with
+    match mapE (mkEnt ext f s) (r.2.filter (fun h => h.entry.localizable)) with
     | .error e => .error e
     | .ok ents => .ok (ents, r.1)
 
@@ -200,18 +249,29 @@ def lookup (es : List PEnt) (k : Cmp.Key) : Except PyErr PEnt :=
 
 /-! ### checkers -/
 
-inductive CheckerKind | base | properties
+inductive CheckerKind | base | properties | dtd | fluent | android
   deriving Repr, DecidableEq, Inhabited
 
-/-- `getChecker(l10n)` for the standard file name of the format; `none` = not covered by this model -/
-def checkerOf : P.Fmt → Option CheckerKind
-  | .ini => some .base
-  | .inc => some .base
-  | .po => some .base
-  | .properties => some .properties
-  | .dtd => none
+/-- `getChecker(l10n)` for the standard file name of the format -/
+def checkerOf : P.Fmt → CheckerKind
+  | .ini => .base
+  | .inc => .base
+  | .po => .base
+  | .properties => .properties
+  | .dtd => .dtd
 
-def covered (f : P.Fmt) : Bool := (checkerOf f).isSome
+def clsOf : P.Fmt → Cls
+  | .dtd => .dtd
+  | _ => .plain
+
+/-- the checker object: its class, `checker.locale`, and for `DTDChecker` the XML parser it calls and
+    `checker.reference` as `known_entities` reads it (`ent.raw_val for ent in self.reference.values()`: every entry of
+    the parsed reference, Junk included) -/
+structure CkCtx where
+  kind : CheckerKind
+  locale : Option Text
+  xml : Dtd.Bytes → Dtd.ParseRes := fun _ => ⟨none, []⟩
+  refVals : List Text := []
 
 /-- one tuple `(tp, pos, msg, cat)` yielded by `checker.check(refEnt, l10nEnt)` -/
 structure CheckRes where
@@ -253,13 +313,115 @@ def runProps (locale : Option Text) (refent l10nent : PEnt) : Except PyErr (List
     | some fs => .ok (fs.map ofFinding)
   | _, _ => .error .typeError
 
-/-- `list(checker.check(refent, l10nent))` -/
-def runChecker (ck : CheckerKind) (locale : Option Text) (refent l10nent : PEnt) : Except PyErr (List CheckRes) :=
-  match ck with
-  | .base => .ok (runBase l10nent)
-  | .properties => runProps locale refent l10nent
+def dtdCatText : Dtd.Cat → Text
+  | .encodings => encCat
+  | .xmlparse => [120, 109, 108, 112, 97, 114, 115, 101]
+  | .number => [110, 117, 109, 98, 101, 114]
+  | .css => [99, 115, 115]
+  | .android => [97, 110, 100, 114, 111, 105, 100]
 
-/-! ### message texts -/
+def ofDtdResult (r : Dtd.Result) : CheckRes :=
+  { sev := (match r.level with | .error => .error | .warning => .warning),
+    pos := (match r.pos with | .lc l c => .tuple l c | .num n => .offset n | .entityPos n => .entityPos (n : Int)),
+    msg := r.msg, cat := dtdCatText r.cat }
+
+/-- what `DTDChecker.check` is called with.  `extra_tests` is None (no "android-dtd"); the reference was set by
+    `checker.set_reference`.  Only `key`, `all`, `raw_val` are read, which a `Junk` has as well. -/
+def dtdInp (c : CkCtx) (rk lk : Text) (refent l10nent : PEnt) : Dtd.Inp :=
+  { android := false, reference := some c.refVals,
+    ref := ⟨rk, refent.all, refent.raw⟩, l10n := ⟨lk, l10nent.all, l10nent.raw⟩ }
+
+/-- `list(DTDChecker.check(refEnt, l10nEnt))`: an exception of the generator ends the comparison, whatever was yielded -/
+def runDtd (c : CkCtx) (refent l10nent : PEnt) : Except PyErr (List CheckRes) :=
+  match refent.key, l10nent.key with
+  | .str rk, .str lk =>
+    let out := Dtd.check c.xml (dtdInp c rk lk refent l10nent)
+    match out.exc with
+    | some .unicodeEncodeError => .error .unicodeEncodeError     -- `value.encode("utf-8")` on a lone surrogate
+    | some .indexError => .error .indexError                     -- `lines[lnr - 1]` (ruled out since f80b06f)
+    | some .unsupported => .error .unmodelled
+    | none => .ok (out.results.map ofDtdResult)
+  | _, _ => .error .typeError
+
+/-- the two severities `FluentChecker` yields (the model Checks/Fluent.lean builds no other text) -/
+def ftlSev (t : Text) : Checks.Severity := if t == Ftl.sevError then .error else .warning
+
+/-- the tuples of `FluentChecker.check`: the first `nEnc` come from `super().check` and carry an `EntityPos`, the
+    others a plain int -/
+def ofFtlOuts (nEnc : Nat) (outs : List Ftl.Out) : List CheckRes :=
+  (outs.take nEnc).map (fun o => { sev := ftlSev o.sev, pos := .entityPos o.pos, msg := o.text, cat := o.cat }) ++
+  (outs.drop nEnc).map (fun o => { sev := ftlSev o.sev, pos := .offset o.pos, msg := o.text, cat := o.cat })
+
+/-- `FluentChecker.check(refEnt, l10nEnt)`: `super().check` (EntityPos), then `l10nEnt.entry` / `refEnt.entry`
+    (a `Junk` has no `entry`), then the messages with plain int positions; `error` of the model = the IndexError of
+    `plurals.get_plural` -/
+def runFluent (locale : Option Text) (refent l10nent : PEnt) : Except PyErr (List CheckRes) :=
+  match refent.ftl, l10nent.ftl, l10nent.key with
+  | some (ra, _), some (la, _), .str lk =>
+    match Ftl.check locale lk l10nent.all ra la with
+    | .error _ => .error .indexError
+    | .ok outs => .ok (ofFtlOuts (Ftl.checkEncoding lk l10nent.all).length outs)
+  | _, _, _ => .error .attributeError
+
+/-- the message texts of checks/android.py (generated from the source text) -/
+def androidMsgText (key : Text) : Android.Msg → Text
+  | .mojibake => encPrefix ++ key
+  | .incompatible => Gen.Tables.androidMsg_incompatible
+  | .unsupported => Gen.Tables.androidMsg_unsupported
+  | .notTranslatable => Gen.Tables.androidMsg_notTranslatable
+  | .notPlain => Gen.Tables.androidMsg_notPlain
+  | .doubleQuotes => Gen.Tables.androidMsg_doubleQuotes
+  | .apostrophe => Gen.Tables.androidMsg_apostrophe
+  | .conflict o f1 f2 => Lint.interleave Gen.Tables.androidMsg_conflict [natText o, f1, natText o, f2]
+  | .notInRef o f => Lint.interleave Gen.Tables.androidMsg_notInRef [natText o, f]
+  | .mismatch => Gen.Tables.androidMsg_mismatch
+  | .notInL10n o f => Lint.interleave Gen.Tables.androidMsg_notInL10n [natText o, f]
+  | .countMismatch => Gen.Tables.androidMsg_countMismatch
+
+def androidCat : Text := [97, 110, 100, 114, 111, 105, 100]
+
+/-- one tuple of `AndroidChecker.check`: the base check yields an `EntityPos`, the others a plain int -/
+def ofAndroidResult (key : Text) (r : Android.Result) : CheckRes :=
+  { sev := (match r.sev with | .error => .error | .warning => .warning),
+    pos := (match r.msg with | .mojibake => .entityPos (r.pos : Int) | _ => .offset (r.pos : Int)),
+    msg := androidMsgText key r.msg,
+    cat := (match r.msg with | .mojibake => encCat | _ => androidCat) }
+
+/-- `AndroidChecker.check(refEnt, l10nEnt)`: reads `.node` of both (an `XMLJunk` has none) -/
+def runAndroid (refent l10nent : PEnt) : Except PyErr (List CheckRes) :=
+  match refent.node, l10nent.node with
+  | some rn, some ln =>
+    match Android.check ⟨rn, refent.val, refent.all⟩ ⟨ln, l10nent.val, l10nent.all⟩ with
+    | none => .error .unmodelled
+    | some rs => .ok (rs.map (ofAndroidResult (keyText l10nent.key)))
+  | _, _ => .error .attributeError
+
+/-- `list(checker.check(refent, l10nent))` -/
+def runChecker (c : CkCtx) (refent l10nent : PEnt) : Except PyErr (List CheckRes) :=
+  match c.kind with
+  | .base => .ok (runBase l10nent)
+  | .properties => runProps c.locale refent l10nent
+  | .dtd => runDtd c refent l10nent
+  | .fluent => runFluent c.locale refent l10nent
+  | .android => runAndroid refent l10nent
+
+/-! ### positions, messages -/
+
+/-- `l10nent.position(pos)` for an `EntityPos`, else `l10nent.value_position(pos)`; `none` = the call raises
+    (a base `Junk` has no `value_position`; `assert self.val_span is not None`) -/
+def resolvePos (s : Array Nat) (cls : Cls) (e : PEnt) (p : Pos.CheckPos) : Option (Int × Int) :=
+  match cls with
+  | .plain => Pos.resolveCheckPos s .plain e.entry p
+  | .dtd => Pos.resolveCheckPos s .dtd e.entry p
+  | .fluent =>
+    if e.junk then (match p with | .entityPos n => Pos.position s e.entry n | _ => none)
+    else Pos.resolveCheckPos s .fluent e.entry p
+  | .node =>
+    -- AndroidEntity / XMLJunk: `position(offset)` and `value_position(offset)` return `(0, offset)`
+    match p with
+    | .entityPos n => some (0, n)
+    | .offset n => some (0, n)
+    | .tuple _ _ => none
 
 /-- `f"{entity_id} occurs {cnt} times"` -/
 def dupMsg (k : Cmp.Key) (n : Nat) : Text :=
@@ -269,20 +431,41 @@ def dupMsg (k : Cmp.Key) (n : Nat) : Text :=
 def checkMsg (msg : Text) (line col : Int) (refKey : Cmp.Key) : Text :=
   Lint.interleave Gen.Tables.cmpCheckMsgParts [msg, Lint.showInt line, Lint.showInt col, keyText refKey]
 
-/-- `junk.error_message()` for a Junk of the text `s` -/
-def junkMessage (s : Array Nat) (j : PEnt) : Except PyErr Text :=
-  match Pos.junkMessagePositions s j.entry with
+/-- `junk.error_message()` for a Junk of the text `s` (`XMLJunk.position(offset)` is `(0, offset)`) -/
+def junkMessage (s : Array Nat) (cls : Cls) (j : PEnt) : Except PyErr Text :=
+  match (match cls with
+         | .node => some ((0 : Int), (0 : Int), (0 : Int), (-1 : Int))
+         | _ => Pos.junkMessagePositions s j.entry) with
   | none => .error .indexError
   | some (l1, c1, l2, c2) =>
     .ok (Lint.interleave Gen.Tables.junkMessageParts
       [j.val, Lint.showInt l1, Lint.showInt c1, Lint.showInt l2, Lint.showInt c2])
 
+/-- `refent.equals(l10nent)`: `Entry.equals` compares key and val (a `Junk` has both); `FluentEntity.equals` compares
+    `self.entry` with `other.entry` (a `Junk` has none) -/
+def entEquals (cls : Cls) (refent l10nent : PEnt) : Except PyErr Bool :=
+  match cls with
+  | .fluent =>
+    match refent.ftl, l10nent.ftl with
+    | some a, some b => .ok (a.2 == b.2)
+    | _, _ => .error .attributeError
+  | _ => .ok (refent.key == l10nent.key && refent.val == l10nent.val)
+
+/-- `skip.span`: `(None, None)` for an `AndroidEntity`, `(0, 0)` for an `XMLJunk` -/
+def spanOf (cls : Cls) (e : PEnt) : Option (Nat × Nat) :=
+  match cls with
+  | .node => if e.junk then some (0, 0) else none
+  | _ => some (e.entry.s, e.entry.e)
+
 /-! ### the comparison -/
 
-/-- what `compare` is called with, besides the two texts -/
+/-- what `compare` is called with, besides the two parsed files -/
 structure Env where
-  fmt : P.Fmt
-  ck : CheckerKind
+  /-- `p.capabilities` -/
+  caps : Nat
+  cls : Cls
+  /-- `getChecker(l10n, extra_tests=None)`, after `set_reference` -/
+  ck : CkCtx
   /-- the localized `File` (path segments and locale are what the observers look at) -/
   file : ObsM.File
   /-- `merge_file is not None` -/
@@ -302,7 +485,7 @@ structure LoopSt where
   stats : Cmp.Stats := {}
   /-- `missings` -/
   missings : List Cmp.Key := []
-  /-- `skips` (entity objects; `in` compares by identity, distinct entries have distinct spans) -/
+  /-- `skips` (entity objects; `in` compares by identity) -/
   skips : List PEnt := []
 
 def sevCat : Checks.Severity → ObsM.Cat
@@ -315,7 +498,7 @@ def checkLoop (env : Env) (refent l10nent : PEnt) :
   | [], st => .ok st
   | c :: cs, (obs, skips) =>
     -- `l10nent.position(pos)` for an EntityPos, else `l10nent.value_position(pos)` (a Junk has none)
-    match Pos.resolveCheckPos env.l10nText .plain l10nent.entry c.pos with
+    match resolvePos env.l10nText env.cls l10nent c.pos with
     | none => .error (if l10nent.junk then .attributeError else .assertionError)
     | some (line, col) =>
       let skips := if c.sev == .error && env.mergeOn && !skips.contains l10nent then skips ++ [l10nent] else skips
@@ -344,14 +527,14 @@ def step (env : Env) (ref l10n : List PEnt) (st : LoopSt) (p : AR.Label × Cmp.K
           | .error =>
             .ok { st with obs := obs, missings := st.missings ++ [entityId],
                           stats := { st.stats with missing := st.stats.missing + 1,
-                                                   missing_w := st.stats.missing_w + Cmp.countWords refent.val } }
+                                                   missing_w := st.stats.missing_w + refent.words } }
           | .warning => .ok { st with obs := obs, stats := { st.stats with report := st.stats.report + 1 } }
   | .add =>
     match lookup l10n entityId with
     | .error e => .error e
     | .ok l10nent =>
       if l10nent.junk then
-        match junkMessage env.l10nText l10nent with
+        match junkMessage env.l10nText env.cls l10nent with
         | .error e => .error e
         | .ok msg =>
           match notify env st.obs .error (.str msg) with
@@ -372,16 +555,19 @@ def step (env : Env) (ref l10n : List PEnt) (st : LoopSt) (p : AR.Label × Cmp.K
       let stats : Except PyErr Cmp.Stats :=
         if Cmp.keyMatch entityId then .ok { st.stats with keys := st.stats.keys + 1 }
         else if refent.junk then .error .attributeError          -- `refent.equals`: a Junk has no `equals`
-        else if refent.key == l10nent.key && refent.val == l10nent.val then
-          .ok { st.stats with unchanged := st.stats.unchanged + 1,
-                              unchanged_w := st.stats.unchanged_w + Cmp.countWords refent.val }
         else
-          .ok { st.stats with changed := st.stats.changed + 1,
-                              changed_w := st.stats.changed_w + Cmp.countWords refent.val }
+          match entEquals env.cls refent l10nent with
+          | .error e => .error e
+          | .ok true =>
+            .ok { st.stats with unchanged := st.stats.unchanged + 1,
+                                unchanged_w := st.stats.unchanged_w + refent.words }
+          | .ok false =>
+            .ok { st.stats with changed := st.stats.changed + 1,
+                                changed_w := st.stats.changed_w + refent.words }
       match stats with
       | .error e => .error e
       | .ok stats =>
-        match runChecker env.ck env.file.locale refent l10nent with
+        match runChecker env.ck refent l10nent with
         | .error e => .error e
         | .ok results =>
           match checkLoop env refent l10nent results (st.obs, st.skips) with
@@ -410,12 +596,12 @@ def refAllOf (ref : List PEnt) (k : Cmp.Key) : Except PyErr Text :=
   | .ok r => .ok r.all
 
 /-- the entry of `skips` as `merge` sees it (`skip.span`, Junk or not, `ref_entities[skip.key].all`) -/
-def mkSkip (ref : List PEnt) (sk : PEnt) : Except PyErr Merge.Skip :=
-  if sk.junk then .ok { span := some (sk.entry.s, sk.entry.e), junk := true, refAll := [] }
+def mkSkip (cls : Cls) (ref : List PEnt) (sk : PEnt) : Except PyErr Merge.Skip :=
+  if sk.junk then .ok { span := spanOf cls sk, junk := true, refAll := [] }
   else
     match refAllOf ref sk.key with
     | .error e => .error e
-    | .ok all => .ok { span := some (sk.entry.s, sk.entry.e), junk := false, refAll := all }
+    | .ok all => .ok { span := spanOf cls sk, junk := false, refAll := all }
 
 /-- `self.merge(ref_entities, ref_file, l10n, merge_file, missings, skips, l10n_ctx, p.capabilities, p.encoding)` -/
 def doMerge (env : Env) (ref : List PEnt) (missings : List Cmp.Key) (skips : List PEnt) : Except PyErr Merge.Outcome :=
@@ -423,10 +609,10 @@ def doMerge (env : Env) (ref : List PEnt) (missings : List Cmp.Key) (skips : Lis
   match mapE (refAllOf ref) missings with
   | .error e => .error e
   | .ok missingAlls =>
-    match mapE (mkSkip ref) skips with
+    match mapE (mkSkip env.cls ref) skips with
     | .error e => .error e
     | .ok sks =>
-      match Merge.merge true (capsOf env.fmt) env.l10nText.toList sks missingAlls with
+      match Merge.merge true env.caps env.l10nText.toList sks missingAlls with
       | .typeError => .error .typeError
       | o => .ok o
 
@@ -470,23 +656,26 @@ def reportOf (l : ObsM.ObsList) (m : Merge.Outcome) : Report :=
     details := (TreeM.toJSON l.own.details).leaves,
     merge := m }
 
+/-- the environment of `compare` for a format with a regex parser: the checker `getChecker(l10n)` returns for the
+    file name of the format, with `checker.locale = l10n.locale` and (DTD) `set_reference(ref_entities)` -/
+def envOf (ext : Ext) (fmt : P.Fmt) (file : ObsM.File) (mergeOn : Bool) (ref : List PEnt) (l10nText : Array Nat) : Env :=
+  { caps := capsOf fmt, cls := clsOf fmt,
+    ck := { kind := checkerOf fmt, locale := file.locale, xml := ext.xml, refVals := ref.map (·.raw) },
+    file := file, mergeOn := mergeOn, l10nText := l10nText }
+
 /-- `ContentComparer.compare(ref_file, l10n, merge_file)` for a format with a regex parser, on decoded texts, in a
     process whose `Junk.junkid` is 0, reporting to `obs0` -/
-def compareFiles (fmt : P.Fmt) (file : ObsM.File) (obs0 : ObsM.ObsList) (refText l10nText : Array Nat) (mergeOn : Bool) :
-    Except PyErr Report :=
-  match checkerOf fmt with
-  | none => .error .unmodelled
-  | some ck =>
-    match parseFile fmt refText 0 with
+def compareFiles (ext : Ext) (fmt : P.Fmt) (file : ObsM.File) (obs0 : ObsM.ObsList) (refText l10nText : Array Nat)
+    (mergeOn : Bool) : Except PyErr Report :=
+  match parseFile ext fmt refText 0 with
+  | .error e => .error e
+  | .ok (ref, n1) =>
+    match parseFile ext fmt l10nText n1 with
     | .error e => .error e
-    | .ok (ref, n1) =>
-      match parseFile fmt l10nText n1 with
+    | .ok (l10n, _) =>
+      match compareParsed (envOf ext fmt file mergeOn ref l10nText) ref l10n obs0 with
       | .error e => .error e
-      | .ok (l10n, _) =>
-        let env : Env := { fmt := fmt, ck := ck, file := file, mergeOn := mergeOn, l10nText := l10nText }
-        match compareParsed env ref l10n obs0 with
-        | .error e => .error e
-        | .ok (obs, outcome) => .ok (reportOf obs outcome)
+      | .ok (obs, outcome) => .ok (reportOf obs outcome)
 
 /-- the file name the harness uses for a format (`a.ini`, `a.inc`, `a.po`, `a.properties`, `a.dtd`) -/
 def fileName : P.Fmt → Text
@@ -503,8 +692,178 @@ def stdFile (fmt : P.Fmt) : ObsM.File := { file := fileName fmt, module := none,
 def stdObs : ObsM.ObsList := ObsM.ObsList.init 0 [ObsM.Obs.init 0 none]
 
 /-- the whole comparison with one unfiltered observer -/
-def compareTexts (fmt : P.Fmt) (refText l10nText : Array Nat) (mergeOn : Bool) : Except PyErr Report :=
-  compareFiles fmt (stdFile fmt) stdObs refText l10nText mergeOn
+def compareTexts (ext : Ext) (fmt : P.Fmt) (refText l10nText : Array Nat) (mergeOn : Bool) : Except PyErr Report :=
+  compareFiles ext fmt (stdFile fmt) stdObs refText l10nText mergeOn
+
+/-! ### Fluent and Android: the pipeline from the external parser's output on
+
+`fluent.syntax` and `xml.dom.minidom` are external: what they return is the INPUT here (entry kinds with spans and
+the AST summary of C08's model; the node summary of C09's model).  Everything after that is modelled: the walk that
+turns the body into entries (`P.fluentEntry`, C01), `Junk.junkid`, keys / `all`, the checker, the comparison. -/
+
+/-- one entry of `resource.body` -/
+structure FtlItem where
+  fe : P.FEntry
+  /-- the AST of a Message / Term -/
+  ast : Option Ftl.Entry := none
+  /-- `count_words()`: the `WordCounter` visitor over the AST -/
+  words : Nat := 0
+  /-- class of the AST under `BaseNode.equals(other, ignored_fields)` -/
+  eqc : Nat := 0
+
+/-- the objects `FluentParser.walk(only_localizable=True)` yields for one body entry, with `Junk.junkid = n` before -/
+def ftlItemEnts (s : Array Nat) (it : FtlItem) : List P.Entry → Nat → List PEnt × Nat
+  | [], n => ([], n)
+  | e :: es, n =>
+    if e.kind == .junk then
+      let r := ftlItemEnts s it es (n + 1)
+      (mkJunk s e (n + 1) :: r.1, r.2)
+    else
+      let r := ftlItemEnts s it es n
+      -- FluentEntity: `pre_comment = None`, `key` / `raw_val` are slices of the contents, `val_span` may be None
+      ({ entry := e, junk := false, key := .str (P.pySlice s e.ks e.ke), val := P.pySlice s e.vs e.ve,
+         raw := P.pySlice s e.vs e.ve, all := P.Entry.all s e, comment := none, words := it.words,
+         ftl := it.ast.map (fun a => (a, it.eqc)) } :: r.1, r.2)
+
+/-- `p.readUnicode(text); p.parse()` of `FluentParser` given `resource.body` -/
+def parseFtl (s : Array Nat) : List FtlItem → Nat → List PEnt × Nat
+  | [], n => ([], n)
+  | it :: rest, n =>
+    let a := ftlItemEnts s it (P.fluentEntry s true it.fe) n
+    let b := parseFtl s rest a.2
+    (a.1 ++ b.1, b.2)
+
+/-- `a.ftl` -/
+def ftlFileName : Text := [97, 46, 102, 116, 108]
+
+def ftlEnv (file : ObsM.File) (mergeOn : Bool) (l10nText : Array Nat) : Env :=
+  { caps := Gen.Tables.cap_ftl, cls := .fluent, ck := { kind := .fluent, locale := file.locale },
+    file := file, mergeOn := mergeOn, l10nText := l10nText }
+
+/-- what the external parser did with one text: it returned `resource.body`, or it raised (class name, `str(e)`) — e.g.
+    RecursionError "maximum recursion depth exceeded" on ~200 nested placeables (fluent.syntax is recursive descent) -/
+inductive FtlParse
+  | body (items : List FtlItem)
+  | raises (name : String) (msg : Text)
+
+/-- `File(path, "a.ftl" | "strings.xml", locale=None)`: the reference file as the harness passes it -/
+def refFileNamed (name : Text) : ObsM.File := { file := name, module := none, locale := none }
+
+/-- `ContentComparer.compare` on two `.ftl` files, from what `fluent.syntax` did with the two texts.
+    Reading + parsing the reference is inside a `try` (upstream fix d91dd73): an exception becomes
+    `notify("error", ref_file, str(e))` and `compare` returns; the same for the localization with
+    `notify("error", l10n, str(e))` (no merge, no statistics in either case). -/
+def compareFtlP (refFile file : ObsM.File) (obs0 : ObsM.ObsList) (l10nText : Array Nat) (refText : Array Nat)
+    (refParse l10nParse : FtlParse) (mergeOn : Bool) : Except PyErr Report :=
+  match refParse with
+  | .raises _ msg =>
+    match obs0.notify .error refFile (.str msg) with
+    | .error e => .error (.observer e)
+    | .ok (obs, _) => .ok (reportOf obs .nothing)
+  | .body refBody =>
+    match l10nParse with
+    | .raises _ msg =>
+      match obs0.notify .error file (.str msg) with
+      | .error e => .error (.observer e)
+      | .ok (obs, _) => .ok (reportOf obs .nothing)
+    | .body l10nBody =>
+      let r := parseFtl refText refBody 0
+      let l := parseFtl l10nText l10nBody r.2
+      match compareParsed (ftlEnv file mergeOn l10nText) r.1 l.1 obs0 with
+      | .error e => .error e
+      | .ok (obs, outcome) => .ok (reportOf obs outcome)
+
+/-- the same when the parser returned a body for both texts -/
+def compareFtl (file : ObsM.File) (obs0 : ObsM.ObsList) (l10nText : Array Nat) (refText : Array Nat)
+    (refBody l10nBody : List FtlItem) (mergeOn : Bool) : Except PyErr Report :=
+  compareFtlP (refFileNamed ftlFileName) file obs0 l10nText refText (.body refBody) (.body l10nBody) mergeOn
+
+/-- one object of `AndroidParser.walk(only_localizable=True)`: an `XMLJunk(all)` (the whole text when minidom
+    rejects it, `doc.toxml()` for a foreign root, `element.toxml()` for a child that is no named `<string>`) or an
+    `AndroidEntity` with its `name` attribute, the text of the attached comment + white-space, and the node -/
+inductive AItem
+  | junk (all : Text)
+  | entity (key : Text) (pre : Text) (node : Android.Node)
+
+/-- an Android object has no spans -/
+def noSpan (k : P.Kind) : P.Entry := { kind := k, full := 0, s := 0, e := 0 }
+
+/-- `p.parse()` of `AndroidParser` given the walk's objects: `XMLJunk.__init__` bumps `Junk.junkid` with span (0, 0) -/
+def parseAndroid : List AItem → Nat → List PEnt × Nat
+  | [], n => ([], n)
+  | .junk all :: rest, n =>
+    let r := parseAndroid rest (n + 1)
+    ({ entry := noSpan .junk, junk := true, key := .str (junkKeyText (n + 1) 0 0), val := all, raw := all, all := all,
+       comment := none } :: r.1, r.2)
+  | .entity key pre node :: rest, n =>
+    let r := parseAndroid rest n
+    let e := Android.mkEntity node pre
+    ({ entry := noSpan .entity, junk := false, key := .str key, val := e.val, raw := e.val, all := e.all, comment := none,
+       words := Cmp.countWords e.val, node := some node } :: r.1, r.2)
+
+/-- `strings.xml` -/
+def androidFileName : Text := [115, 116, 114, 105, 110, 103, 115, 46, 120, 109, 108]
+
+def androidEnv (file : ObsM.File) (mergeOn : Bool) (l10nText : Array Nat) : Env :=
+  { caps := Gen.Tables.cap_android, cls := .node, ck := { kind := .android, locale := file.locale },
+    file := file, mergeOn := mergeOn, l10nText := l10nText }
+
+/-- `ContentComparer.compare` on two `strings.xml` files, from the objects the walk over the minidom tree yields -/
+def compareAndroid (file : ObsM.File) (obs0 : ObsM.ObsList) (l10nText : Array Nat) (refItems l10nItems : List AItem)
+    (mergeOn : Bool) : Except PyErr Report :=
+  let r := parseAndroid refItems 0
+  let l := parseAndroid l10nItems r.2
+  match compareParsed (androidEnv file mergeOn l10nText) r.1 l.1 obs0 with
+  | .error e => .error e
+  | .ok (obs, outcome) => .ok (reportOf obs outcome)
+
+/-- `File(path, "a.ftl" | "strings.xml", locale="de")` -/
+def fileNamed (name : Text) : ObsM.File := { file := name, module := none, locale := some [100, 101] }
+
+/-! ### whole files: `ContentComparer.add` (missing localized file) and `ContentComparer.remove` (obsolete file) -/
+
+/-- `ContentComparer.add(orig, missing, merge_file)` for a format with a regex parser: the reference is copied to the
+    merge stage when the parser can copy or merge (`["trigger copy"]` stands for the missing strings), `missingFile` is
+    notified, and unless the filters ignore the file the Entities of the reference and their words are counted as
+    missing.  (`except Exception` around `readFile` / `parse` is not modelled: parsing never raises, `C05.parse_never_stuck`,
+    `Pipe.parseFile_ok`.) -/
+def addFile (ext : Ext) (fmt : P.Fmt) (file : ObsM.File) (obs0 : ObsM.ObsList) (refText : Array Nat) (mergeOn : Bool) :
+    Except PyErr Report :=
+  let caps := capsOf fmt
+  let outcome : Merge.Outcome :=
+    if Merge.hasCap caps Gen.Tables.CAN_COPY || Merge.hasCap caps Gen.Tables.CAN_MERGE then
+      Merge.merge mergeOn Gen.Tables.CAN_COPY [] [] [[]]
+    else .nothing
+  match obs0.notify .missingFile file .none with
+  | .error e => .error (.observer e)
+  | .ok (obs, rv) =>
+    if rv == .ignore then .ok (reportOf obs outcome) else
+    match parseFile ext fmt refText 0 with
+    | .error e => .error e
+    | .ok (ents, _) =>
+      let es := ents.filter (fun e => !e.junk)
+      let obs1 := obs.updateStats file [(.missing, es.length)]
+      let obs2 := obs1.updateStats file [(.missing_w, (es.map (·.words)).sum)]
+      .ok (reportOf obs2 outcome)
+
+/-- `ContentComparer.remove(ref_file, l10n, merge_file)`: `obsoleteFile` is notified and the localized file copied to
+    the merge stage -/
+def removeFile (file : ObsM.File) (obs0 : ObsM.ObsList) (mergeOn : Bool) : Except PyErr Report :=
+  match obs0.notify .obsoleteFile file .none with
+  | .error e => .error (.observer e)
+  | .ok (obs, _) => .ok (reportOf obs (Merge.merge mergeOn Gen.Tables.CAN_COPY [] [] []))
+
+/-- a family of filters for the correspondence: the verdict depends on the length of the entity id (file level: on
+    `k` alone), so that all three verdicts occur for files, entities and the `entity=""` probe of `updateStats` -/
+def testFilter (k : Nat) : ObsM.Filter := fun _ d =>
+  let pick : Nat → ObsM.Ret := fun n => if n % 3 == 0 then .error else if n % 3 == 1 then .warning else .ignore
+  match d with
+  | .none => pick k
+  | .str t => pick (t.length + k)
+  | .tuple ps => pick ((match ps with | some t :: _ => t.length | _ => 0) + k)
+
+/-- `cc = ContentComparer(); cc.observers.append(Observer(filter=testFilter k))` -/
+def filterObs (k : Nat) : ObsM.ObsList := ObsM.ObsList.init 0 [ObsM.Obs.init 0 (some (testFilter k))]
 
 /-! ### lint -/
 
@@ -523,49 +882,126 @@ def toLintCheck (c : CheckRes) : Lint.Check :=
 /-- `paths.REFERENCE_LOCALE`: "en-x-moz-reference" -/
 def referenceLocale : Text := [101, 110, 45, 120, 45, 109, 111, 122, 45, 114, 101, 102, 101, 114, 101, 110, 99, 101]
 
-/-- the entity as the linter model sees it; `vals` fixes the numbering of the value classes -/
-def toLintEnt (ck : CheckerKind) (vals : List Text) (e : PEnt) : Except PyErr Lint.Ent :=
+def modeOf : Cls → Lint.Mode
+  | .plain => .ctx
+  | .dtd => .dtd
+  | .fluent => .fluent
+  | .node => .node
+
+/-- the class of an entry under `equals`: key and val for `Entry.equals`, the AST class for `FluentEntity.equals`;
+    `vals` fixes the numbering of the value classes -/
+def eqOf (cls : Cls) (vals : List Text) (e : PEnt) : Nat :=
+  match cls, e.ftl with
+  | .fluent, some (_, c) => c
+  | _, _ => vals.idxOf e.val
+
+/-- the entity as the linter model sees it -/
+def toLintEnt (c : CkCtx) (cls : Cls) (vals : List Text) (e : PEnt) : Except PyErr Lint.Ent :=
   if e.junk then
-    .ok { kind := .junk, key := keyText e.key, eq := vals.idxOf e.val, mode := .ctx, s := e.entry.s, e := e.entry.e }
+    .ok { kind := .junk, key := keyText e.key, eq := eqOf cls vals e, mode := (if cls == .node then .node else .ctx),
+          s := e.entry.s, e := e.entry.e, lit := e.all }
   else
-    match runChecker ck (some referenceLocale) e e with
+    match runChecker c e e with
     | .error x => .error x
     | .ok rs =>
-      .ok { kind := .entity, key := keyText e.key, eq := vals.idxOf e.val, mode := .ctx, s := e.entry.s, e := e.entry.e,
-            vs := Pos.valSpan false e.entry, checks := rs.map toLintCheck }
+      .ok { kind := .entity, key := keyText e.key, eq := eqOf cls vals e, mode := modeOf cls, s := e.entry.s, e := e.entry.e,
+            vs := Pos.valSpan (cls == .fluent) e.entry, checks := rs.map toLintCheck }
 
-def toRefEnt (vals : List Text) (e : PEnt) : Lint.RefEnt := { key := keyText e.key, eq := vals.idxOf e.val }
+def toRefEnt (cls : Cls) (vals : List Text) (e : PEnt) : Lint.RefEnt := { key := keyText e.key, eq := eqOf cls vals e }
 
-/-- `lint_file` after parsing: `reference = none` stands for `reference = {}` (no reference file) -/
-def lintParsed (fmt : P.Fmt) (ck : CheckerKind) (reference : Option (List PEnt)) (curText : Array Nat) (cur : List PEnt) :
-    Except PyErr (List Lint.Result) :=
-  let ref : List PEnt := match reference with | some r => r | none => []
+/-- `current_entity.equals(reference_entity)` of a FluentEntity against a `Junk` of the reference under the same key:
+    `other.entry` raises AttributeError -/
+def lintJunkClash (cls : Cls) (reference cur : List PEnt) : Bool :=
+  cls == .fluent && cur.any (fun e => !e.junk &&
+    (match lookup reference e.key with
+     | .ok r => r.junk
+     | .error _ => false))
+
+/-- `reference = {}` when there is no reference file -/
+def refList : Option (List PEnt) → List PEnt
+  | some r => r
+  | none => []
+
+/-- `lint_file` after parsing: `reference = none` stands for `reference = {}` (no reference file).  The checker is
+    `getChecker(File(path, path, locale=REFERENCE_LOCALE))` with `set_reference(current)`. -/
+def lintParsed (ext : Ext) (path : Text) (kind : CheckerKind) (cls : Cls) (reference : Option (List PEnt))
+    (curText : Array Nat) (cur : List PEnt) : Except PyErr (List Lint.Result) :=
+  let ref : List PEnt := refList reference
   let vals := (ref ++ cur).map (·.val)
-  match mapE (toLintEnt ck vals) cur with
+  let c : CkCtx := { kind := kind, locale := some referenceLocale, xml := ext.xml, refVals := cur.map (·.raw) }
+  if lintJunkClash cls ref cur then .error .attributeError else
+  match mapE (toLintEnt c cls vals) cur with
   | .error e => .error e
   | .ok ents =>
-    match Lint.lintFile { path := fileName fmt, contents := curText, cur := ents,
-                          ref := reference.map (fun r => r.map (toRefEnt vals)) } with
+    match Lint.lintFile { path := path, contents := curText, cur := ents,
+                          ref := reference.map (fun r => r.map (toRefEnt cls vals)) } with
     | .error x => .error (.lint x)
     | .ok rs => .ok rs
 
 /-- `list(L10nLinter().lint_file(path, ref, None))` on decoded texts (`refText = none`: no reference file), in a
     process whose `Junk.junkid` is 0: the reference is parsed first -/
-def lintText (fmt : P.Fmt) (refText : Option (Array Nat)) (curText : Array Nat) : Except PyErr (List Lint.Result) :=
-  match checkerOf fmt with
-  | none => .error .unmodelled
-  | some ck =>
-    match refText with
-    | none =>
-      match parseFile fmt curText 0 with
+def lintText (ext : Ext) (fmt : P.Fmt) (refText : Option (Array Nat)) (curText : Array Nat) : Except PyErr (List Lint.Result) :=
+  match refText with
+  | none =>
+    match parseFile ext fmt curText 0 with
+    | .error e => .error e
+    | .ok (cur, _) => lintParsed ext (fileName fmt) (checkerOf fmt) (clsOf fmt) none curText cur
+  | some t =>
+    match parseFile ext fmt t 0 with
+    | .error e => .error e
+    | .ok (ref, n1) =>
+      match parseFile ext fmt curText n1 with
       | .error e => .error e
-      | .ok (cur, _) => lintParsed fmt ck none curText cur
-    | some t =>
-      match parseFile fmt t 0 with
-      | .error e => .error e
-      | .ok (ref, n1) =>
-        match parseFile fmt curText n1 with
-        | .error e => .error e
-        | .ok (cur, _) => lintParsed fmt ck (some ref) curText cur
+      | .ok (cur, _) => lintParsed ext (fileName fmt) (checkerOf fmt) (clsOf fmt) (some ref) curText cur
+
+/-- `lint_file` on an `.ftl` file from the bodies of the external parser -/
+def lintFtl (refText : Option (Array Nat × List FtlItem)) (curText : Array Nat) (curBody : List FtlItem) :
+    Except PyErr (List Lint.Result) :=
+  match refText with
+  | none => lintParsed default ftlFileName .fluent .fluent none curText (parseFtl curText curBody 0).1
+  | some (t, body) =>
+    let r := parseFtl t body 0
+    lintParsed default ftlFileName .fluent .fluent (some r.1) curText (parseFtl curText curBody r.2).1
+
+/-- the ONE result `lint_file` yields when reading / parsing the reference or the current file raises (upstream fix
+    9f11b8c): `{"lineno": 1, "column": 1, "level": "error", "message": str(e)}` -/
+def lintParseError (msg : Text) : Lint.Result :=
+  { lineno := (Gen.Tables.lintParseErrLine : Int), column := (Gen.Tables.lintParseErrCol : Int),
+    level := Gen.Tables.lintParseErrLevel, message := msg }
+
+/-- `lint_file` on an `.ftl` file from what `fluent.syntax` did with the texts: the reference is parsed first -/
+def lintFtlP (refT : Option (Array Nat × FtlParse)) (curText : Array Nat) (cur : FtlParse) : Except PyErr (List Lint.Result) :=
+  match refT with
+  | some (_, .raises _ msg) => .ok [lintParseError msg]
+  | some (t, .body rb) =>
+    (match cur with
+     | .raises _ msg => .ok [lintParseError msg]
+     | .body cb => lintFtl (some (t, rb)) curText cb)
+  | none =>
+    (match cur with
+     | .raises _ msg => .ok [lintParseError msg]
+     | .body cb => lintFtl none curText cb)
+
+/-- `lint_file` on a `strings.xml` file from the walk's objects -/
+def lintAndroid (refItems : Option (List AItem)) (curText : Array Nat) (curItems : List AItem) :
+    Except PyErr (List Lint.Result) :=
+  match refItems with
+  | none => lintParsed default androidFileName .android .node none curText (parseAndroid curItems 0).1
+  | some items =>
+    let r := parseAndroid items 0
+    lintParsed default androidFileName .android .node (some r.1) curText (parseAndroid curItems r.2).1
+
+/-! ### compatibility with the models built on the four-format pipeline (C03 sessions, C10 composed world, C17)
+
+Added when the DTD coverage was integrated; nothing above depends on it. -/
+
+/-- ini / inc / po / properties: the formats of the base `Entity` class (`clsOf = .plain`) whose parse and comparison
+    consult NO external function (`PipeBridge.parseFile_ext_irrel`, `PipeBridge.compareFiles_ext_irrel` in
+    Proofs/FixPipeBridge.lean) — what `checkerOf fmt ≠ none` / `covered fmt` said before DTD was covered.  The composed
+    models of C03 (Compare/Session.lean) and C10 (Compare/ProjectsPipe.lean) carry the COMPARISON of these only: their
+    wire formats have no table of expat verdicts and their calls no `extra_tests` ("android-dtd"). -/
+def plainFmt : P.Fmt → Bool
+  | .dtd => false
+  | _ => true
 
 end Pipe
